@@ -50,6 +50,16 @@ def holdoutInit {α} (draw : Nat → Nat) (p run : Nat) (s : Sets α) : Sets α 
     let sh := shuffleTail draw (n - skip) (n - 1) s.tr
     ⟨sh.take skip, s.va ++ sh.drop skip⟩
 
+/-- result of `holdout_validation::init`: the sets and the number of `eva_t_->clear()` calls -/
+structure HRes (α : Type) where
+  st : Sets α
+  clears : Nat
+
+/-- `holdout_validation::init(run)` with the optional training evaluator (`hasEva` = the pointer is
+    non-null): cached fitness values are dropped after the split (run 0 only). -/
+def holdoutInitR {α} (draw : Nat → Nat) (p run : Nat) (hasEva : Bool) (s : Sets α) : HRes α :=
+  ⟨holdoutInit draw p run s, if run = 0 ∧ hasEva = true then 1 else 0⟩
+
 /-! ## dynamic subset selection -/
 
 /-- A `dataframe::example`: `id` stands for the payload `(input, output)`. -/
@@ -62,15 +72,23 @@ deriving DecidableEq, Repr
 abbrev St := Sets Ex
 
 def Ex.reset (e : Ex) : Ex := { e with age := 1, diff := 0 }
-def Ex.older (e : Ex) : Ex := { e with age := e.age + 1 }
+/-- `++e.age` on an `unsigned`: wraps at 2^32 -/
+def Ex.older (e : Ex) : Ex := { e with age := (e.age + 1) % 2 ^ 32 }
 
 /-- `dss::reset_age_difficulty` -/
 def resetAD (l : List Ex) : List Ex := l.map Ex.reset
 /-- `for_each(…, inc_age)` in `dss::shake` -/
 def incAge (l : List Ex) : List Ex := l.map Ex.older
 
-/-- `weight(example)` (unnamed namespace of dss.cc) -/
+/-- `weight(example)` (unnamed namespace of dss.cc) over the naturals (no wrap) -/
 def weight (e : Ex) : Nat := e.diff + e.age * e.age * e.age
+
+/-- `weight(example)` as the machine computes it: every operation in `std::uintmax_t` (64 bits) -/
+def weight64 (e : Ex) : Nat :=
+  (e.diff % 2 ^ 64 + (e.age % 2 ^ 64 * (e.age % 2 ^ 64) % 2 ^ 64 * (e.age % 2 ^ 64)) % 2 ^ 64) % 2 ^ 64
+
+/-- `std::accumulate(begin, end, std::uintmax_t(0), s + weight(e))` -/
+def weightSum64 (l : List Ex) : Nat := l.foldl (fun s e => (s + weight64 e) % 2 ^ 64) 0
 
 /-- `dss::move_to_validation` -/
 def moveToValidation (s : St) : St := ⟨[], s.va ++ s.tr⟩
@@ -145,6 +163,37 @@ def ReshuffleStep (pre post : St) : Prop :=
   (∀ e ∈ post.tr, e.age = 1 ∧ e.diff = 0) ∧
   (∀ e ∈ post.va, post.va.count e ≤ (pre.va ++ pre.tr).count e) ∧
   (ids (post.tr ++ post.va)).Perm (ids (pre.va ++ pre.tr))
+
+/-- hold-out with the evaluator: the step relation plus the number of clears -/
+def HoldoutStepR {α} (p run : Nat) (hasEva : Bool) (pre post : Sets α) (clears : Nat) : Prop :=
+  HoldoutStep p run pre post ∧ clears = if run = 0 ∧ hasEva = true then 1 else 0
+
+/-- what an evaluator pass may change: only `difficulty` -/
+def key (e : Ex) : Nat × Nat := (e.id, e.age)
+def EvalRel (pre post : St) : Prop := pre.tr.map key = post.tr.map key ∧ pre.va.map key = post.va.map key
+
+/-- a reshuffle followed by evaluations of the new training frame (what a callback sees) -/
+def ReshuffleObs (pre post : St) : Prop :=
+  post.tr ≠ [] ∧ post.va ≠ [] ∧
+  (∀ e ∈ post.tr, e.age = 1) ∧
+  (∀ e ∈ post.va, post.va.count e ≤ (pre.va ++ pre.tr).count e) ∧
+  (ids (post.tr ++ post.va)).Perm (ids (pre.va ++ pre.tr))
+
+/-- from one after_generation callback to the next one of the same run, DSS with period `gap`
+    (`shake(g)`, re-evaluation, breeding) -/
+def GenObs (gap g : Nat) (pre post : St) : Prop :=
+  if g = 0 ∨ g % gap ≠ 0 then EvalRel pre post ∧ post.va = pre.va
+  else ReshuffleObs ⟨incAge pre.tr, incAge pre.va⟩ post
+
+/-- from the end of a run / the start of the search to the first callback of the next run, DSS
+    (`close`, metrics, `init`, evaluations, `shake(0)`) -/
+def FreshObs (pre post : St) : Prop :=
+  post.tr ≠ [] ∧ post.va ≠ [] ∧ (∀ e ∈ post.tr, e.age = 1) ∧ (∀ e ∈ post.va, e.age = 1 ∧ e.diff = 0) ∧
+  (ids (post.tr ++ post.va)).Perm (ids (pre.tr ++ pre.va))
+
+/-- from the last callback to the return of `search::run`, DSS (`close`, metrics) -/
+def EndObs (pre post : St) : Prop :=
+  post.tr = [] ∧ post.va.map key = (pre.va ++ pre.tr).map key
 
 inductive Call
   | init (run : Nat)
